@@ -103,6 +103,10 @@ def run(ctx):
     _lenient(ctx)
     _lookup(ctx, eff)
     _loops(ctx, cones)
+    # whatever the composite decoders accept can be written again (parse, then serialise)
+    from .. import codecmodel
+    codecmodel.report(ctx, "C04/RESERIALISE", codecmodel.explore_reserialise, codecmodel.RESER_LAWS,
+                      m.cls("prop.vDDDTypes").loc(), 30)
 
 
 # ---------------------------------------------------------------------------
